@@ -169,7 +169,8 @@ def _entry(ck, ctx):
             jd = [l for l in log if l[0] == "json.dump"]
             wantf = W([f"{t}/{n_}_schema.json" for t, n_ in zip(target.ex, nm.ex)])
             if not isdir:
-                ob("dump: a missing target directory is created (with its parents)", len(mk) == 1 and eq(mk[0][1][0], target),
+                plain_mkdir = [l for l in log if l[0] == "os.mkdir"]
+                ob("dump: a missing target directory is created (with its parents)", len(mk) == 1 and eq(mk[0][1][0], target) and not plain_mkdir,
                    f"{[l[0] for l in log]}", "dump_data_to_file (evaluated abstractly)")
             ob(f"dump: the file written is <target>/<name>_schema.json (target {'exists' if isdir else 'missing'})",
                len(op) == 1 and eq(op[0][1][0], wantf) and (op[0][1][1] if len(op[0][1]) > 1 else op[0][2].get("mode")) in ("w", "w+", "wt"),
